@@ -3,10 +3,10 @@ CONSTANTS
   MaxW = 3
   Keys = {1, 2}
   MaxJ = 4
-  MaxInc = 7
+  MaxInc = 5
   LbBig = 1000
-  FixRetire = FALSE
-  Routing0 = "queuer"
+  FixRetire = TRUE
+  Routing0 = "keyp"
   Workers0 = 2
   Lim0 <- Lim1
   Mode0 = "oldest"
@@ -14,18 +14,18 @@ CONSTANTS
   RlRefill = 1
   RlInterval = 2
   RlMax = 1
-  JobKeys <- Keys1212
+  JobKeys <- Keys1121
   JobTtl <- NoTtl4
   PortJobs = {2}
-  Ends = {"ok", "panic", "killmid"}
+  Ends = {"ok", "panic"}
   MaxKills = 1
-  MaxFaults = 2
-  Resizes <- Res12
-  MayDrain = TRUE
+  MaxFaults = 1
+  Resizes <- Res1
+  MayDrain = FALSE
   MaxT = 0
   TStep = 1
   FreeOrder = FALSE
 INVARIANTS
   OneFate PortOk LostOnePerDeath NoFactoryPanic KeyExclusive KeyFifo OneAtATime HashInPool RoundRobinCovers QueuerNoIdle ViewExact
-  QueueBound HookOrder PoolConverges DrainComplete DrainRefuses
+  NeverDrainingSlotReplaced QueueBound HookOrder PoolConverges DrainComplete DrainRefuses
 CHECK_DEADLOCK FALSE
